@@ -395,6 +395,10 @@ def check(pid, tier, base_seed):
             json.dump(evidence, f, indent=1)
             f.write("\n")
 
+    if os.environ.get("QV_PRINT_MARGINS"):        # soak runs: bounds used to more than a quarter (candidates for a look)
+        for k, v in sorted(ratios.items()):
+            if 0.25 < v <= 1.0 and not k.endswith("multipliers <= 1"):
+                print(f"MARGIN {pid} {k} worst/bound={v:.3f}")
     for ln in out_lines:
         print(ln)
     for ln in vio_lines:
